@@ -240,6 +240,16 @@ def rule_tables(prog):
         out.add("TokenType::look_ahead", "T2 look_ahead(Unknown) >= 1", ok, c.loc(t["la_body"]["sp"]),
                 "%s alone is lexed as Unknown but opens a character literal: text typed behind it turns it into a Char token, so it must be "
                 "re-lexed when the change starts at its end (look_ahead is %s)" % (sorted(openers), la.get("Unknown")), ("T2", "lexer"))
+    # T2 (bound): lexer::update cuts the unaffected head with `partition(|t| !t.is_affected_by(start))` and then treats it as a
+    # *prefix* of the token sequence.  That is only right if `end + look_ahead > start` is monotone along the tokens; ends grow by at
+    # least one per token, so every look-ahead must be 0 or 1 (with 2, a token is affected while the one-character token behind it is not)
+    upd = prog.body("spl_frontend::lexer::update")
+    uses_partition = upd is not None and any(x.get("k") == "MethodCall" and x["m"] == "partition" for x in hir.nodes(upd["body"]))
+    if uses_partition:
+        too_big = sorted(k_ for k_, v_ in la.items() if isinstance(v_, int) and v_ > 1)
+        out.add("TokenType::look_ahead", "T2 every look-ahead is 0 or 1 (the unaffected head is cut off by partition)", not too_big,
+                c.loc(t["la_body"]["sp"]), "look_ahead(%s) > 1: `partition` by is_affected_by no longer yields a prefix - an affected token in front "
+                "of an unaffected one-character token is dropped from the re-lexed window and disappears" % ", ".join(too_big), ("T2", "lexer"))
     # T2 (use): the incremental lexer decides "does this change touch that token" with the table's value.  A function between the
     # table and that decision which answers with a number of its own for some tokens (a wrapper with literal arms) takes tokens out of
     # the table again
